@@ -465,13 +465,65 @@ class Twin:
                 return self._file_op(op)
             elif name == "emit":
                 a = self._emit(op)
+            elif name in ("evo_aspirate", "evo_dispense"):
+                lw = self.lws[op["lw"]]
+                spec = self.prog["lw"][op["lw"]]
+                grid = op.get("grid", {"cls": "int", "v": spec.get("grid", 10 + op["lw"])})
+                site = op.get("site", {"cls": "int", "v": spec.get("site", op["lw"]) + 1})
+                arm = op.get("arm", {"cls": "int", "v": 0})
+                a = {
+                    "lw": op["lw"] + 1,
+                    "wells": log_wells(op["wells"]),
+                    "vols": log_vols(op["vols"]),
+                    "tips": [tip_sym_log(t) for t in op["tips"]],
+                    "grid": dict(grid),
+                    "site": dict(site),
+                    "arm": dict(arm),
+                    "lc": text_arg(op.get("lc", "Water")),
+                    "label": label_arg(oplabel),
+                    "labelok": not (isinstance(oplabel, str) and ";" in oplabel),
+                }
+                self._a_pending = a
+                wells = shape_wells(op["wells"], wp)
+                vols = shape_vols(op["vols"], unit, "list", nk)
+                tips = [tip_value(t) for t in op["tips"]]
+                if op.get("tips_present") == "tuple":
+                    tips = tuple(tips)
+                f = wl.evo_aspirate if name == "evo_aspirate" else wl.evo_dispense
+                kw = {}
+                if "arm" in op:
+                    kw["arm"] = self._num_arg(arm)
+                f(lw, wells, (self._num_arg(grid), self._num_arg(site)), tips, vols, op.get("lc", "Water"), label=oplabel, **kw)
+            elif name == "evo_wash":
+                g = op["args"]
+                a = {"tips": [tip_sym_log(t) for t in g["tips"]]}
+                for k in ("wg", "ws", "cg", "cs", "arm", "wdelay", "cdelay", "airgap", "aspeed", "rspeed", "fast", "low"):
+                    a[k] = dict(g[k])
+                a["wv"] = g["wv"]  # hundredths of a millilitre
+                a["cv"] = g["cv"]
+                self._a_pending = a
+                wl.evo_wash(
+                    tips=[tip_value(t) for t in g["tips"]],
+                    waste_location=(self._num_arg(g["wg"]), self._num_arg(g["ws"])),
+                    cleaner_location=(self._num_arg(g["cg"]), self._num_arg(g["cs"])),
+                    arm=self._num_arg(g["arm"]),
+                    waste_vol=g["wv"] / 100 if g["wv"] % 100 else g["wv"] // 100,
+                    waste_delay=self._num_arg(g["wdelay"]),
+                    cleaner_vol=g["cv"] / 100,
+                    cleaner_delay=self._num_arg(g["cdelay"]),
+                    airgap=self._num_arg(g["airgap"]),
+                    airgap_speed=self._num_arg(g["aspeed"]),
+                    retract_speed=self._num_arg(g["rspeed"]),
+                    fastwash=self._num_arg(g["fast"]),
+                    low_volume=self._num_arg(g["low"]),
+                )
             else:
                 raise RuntimeError(f"unknown abstract operation {name}")
         except Exception as e:  # noqa
             if isinstance(e, RuntimeError) and "unknown abstract operation" in str(e):
                 raise
             exc = e
-            if name == "emit":
+            if name in ("emit", "evo_aspirate", "evo_dispense", "evo_wash"):
                 a = self._a_pending
         post, cs = self.project(oplabel if isinstance(oplabel, str) else None)
         recs, prefix_ok, wlen = self.new_records(with_cp)
